@@ -169,4 +169,90 @@ theorem markAll_other (k : Key) : ∀ (cl : List Tid) (conns : List (Tid × Conn
     rw [markAll_other k cs _ t (fun hm => h (List.mem_cons_of_mem _ hm))]
     exact assoc_put_other _ _ _ _ (fun e => h (by rw [e]; exact List.mem_cons_self))
 
+/-! ### the invariant -/
+
+structure WInv (s : Shared) : Prop where
+  /-- a connection is registered for a key only if it has a flag for it -/
+  j1 : ∀ k t, t ∈ regOf s.registry k → hasKey (s.conn t).watch k = true
+  j2 : ∀ k, (regOf s.registry k).Nodup
+
+theorem winv_init : WInv {} where
+  j1 := fun k t h => by cases h
+  j2 := fun k => List.nodup_nil
+
+@[simp] theorem serve_registry (s : Shared) (t : Tid) : (s.serve t).registry = s.registry := by
+  unfold Shared.serve; split <;> rfl
+@[simp] theorem setConn_registry (s : Shared) (t : Tid) (c : ConnSt) : (s.setConn t c).registry = s.registry := rfl
+
+/-- every transition but the three loops leaves the registry and every connection's flags alone -/
+theorem tstep_watch_frame {s : Shared} {t : Tid} {l : Loc} {ch : Choice} {s' l' evs}
+    (hpc : l.pc ≠ .w2 ∧ l.pc ≠ .u2 ∧ l.pc ≠ .g2) (hs : tstep s t l ch = some (s', l', evs)) :
+    s'.registry = s.registry ∧ ∀ g, (s'.conn g).watch = (s.conn g).watch := by
+  obtain ⟨h1, h2, h3⟩ := hpc
+  cases hp : l.pc <;> simp only [tstep, hp] at hs <;>
+    (first | exact absurd hp h1 | exact absurd hp h2 | exact absurd hp h3 | skip) <;>
+    (repeat' split at hs) <;> (first | (cases hs; done) | skip) <;>
+    (try (injection hs with hs; injection hs with e1 e2; subst e1)) <;>
+    (refine ⟨by simp, fun g => ?_⟩) <;> (by_cases hg : g = t) <;>
+    (first | rfl | (subst hg; simp [ConnSt.reset]; done) | (simp [conn_setConn_other _ _ _ _ hg]; done))
+
+theorem winv_step {s : Shared} {t : Tid} {l : Loc} {ch : Choice} {s' l' evs}
+    (hw : WInv s) (hs : tstep s t l ch = some (s', l', evs)) : WInv s' := by
+  by_cases hpc : l.pc ≠ .w2 ∧ l.pc ≠ .u2 ∧ l.pc ≠ .g2
+  · obtain ⟨hr, hc⟩ := tstep_watch_frame hpc hs
+    exact ⟨fun k g h => by rw [hc]; rw [hr] at h; exact hw.j1 k g h, fun k => by rw [hr]; exact hw.j2 k⟩
+  · have hpc' : l.pc = .w2 ∨ l.pc = .u2 ∨ l.pc = .g2 := by
+      by_cases a : l.pc = .w2
+      · exact Or.inl a
+      · by_cases b : l.pc = .u2
+        · exact Or.inr (Or.inl b)
+        · by_cases c : l.pc = .g2
+          · exact Or.inr (Or.inr c)
+          · exact absurd ⟨a, b, c⟩ hpc
+    rcases hpc' with hp | hp | hp
+    · -- Watch
+      simp only [tstep, hp] at hs
+      split at hs
+      · rename_i ks hcmd
+        injection hs with hs; injection hs with e1 e2; subst e1
+        obtain ⟨n1, n2, n3⟩ := watchLoop_spec t ks s.registry (s.conn t).watch hw.j2
+        refine ⟨fun k g h => ?_, fun k => n1 k⟩
+        show hasKey ((({ s with registry := _ } : Shared).setConn t _).conn g).watch k = true
+        have h' : g ∈ regOf (watchLoop t s.registry (s.conn t).watch ks).1 k := h
+        by_cases hg : g = t
+        · subst hg
+          rw [conn_setConn_same]
+          rcases n3 k g h' with h'' | h''
+          · exact n2 k (hw.j1 k g h'')
+          · exact h''.2
+        · rw [conn_setConn_other _ _ _ _ hg]
+          rcases n3 k g h' with h'' | h''
+          · exact hw.j1 k g h''
+          · exact absurd h''.1 hg
+      · cases hs
+    · -- UnWatch
+      simp only [tstep, hp] at hs
+      injection hs with hs; injection hs with e1 e2; subst e1
+      obtain ⟨n1, n2, n3⟩ := unwatchLoop_spec t ((s.conn t).watch.map (·.1)) s.registry hw.j2
+      refine ⟨fun k g h => ?_, fun k => n1 k⟩
+      show hasKey ((({ s with registry := _ } : Shared).setConn t _).conn g).watch k = true
+      have h' : g ∈ regOf (unwatchLoop t s.registry ((s.conn t).watch.map (·.1))) k := h
+      by_cases hg : g = t
+      · subst hg
+        exfalso
+        have hk := hw.j1 k g (n2 k g h')
+        have hmem : k ∈ (s.conn g).watch.map (·.1) := by
+          unfold hasKey kassoc at hk
+          simp only [Option.isSome_map, List.find?_isSome, beq_iff_eq] at hk
+          obtain ⟨x, hx, rfl⟩ := hk
+          exact List.mem_map_of_mem hx
+        exact n3 k hmem h'
+      · rw [conn_setConn_other _ _ _ _ hg]
+        exact hw.j1 k g (n2 k g h')
+    · -- signalModifiedKey
+      simp only [tstep, hp] at hs
+      injection hs with hs; injection hs with e1 e2; subst e1
+      refine ⟨fun k g h => ?_, hw.j2⟩
+      exact markAll_hasKey l.key _ s.conns g k (hw.j1 k g h)
+
 end NodisVerif.GateProg
